@@ -1,12 +1,12 @@
 SPECIFICATION TableSpec
 CONSTANTS
  BNErrs = {"bnval", "bnptr"}
- Variant = "count_dups"
- MCTypes = {"attester"}
- MCMain = "attester"
+ Variant = "coded"
+ MCTypes = {"proposer", "randao"}
+ MCMain = "proposer"
  MCIncl = {"proposer"}
  MCPKs = {"a", "b"}
- MCErrs = {"nil", "other"}
+ MCErrs = {"nil", "bnptr", "cancel"}
  MCRoots = {"x", "y"}
  MCN = 2
  MCSteps = {1}
